@@ -920,7 +920,7 @@ func (ctx Ctx) structLiteral(info structTypeInfo,
 		case *ast.KeyValueExpr:
 			ident, ok := getIdent(el.Key)
 			if !ok {
-				ctx.noExample(el.Key, "struct field keyed by non-identifier %+v", el.Key)
+				ctx.noExample(el.Key, "struct field keyed by non-identifier %s", ctx.printGo(el.Key))
 				return coq.StructLiteral{}
 			}
 			lit.AddField(ident, ctx.expr(el.Value))
